@@ -560,6 +560,15 @@ impl<M: Manager, W: From<Object<M>>> Pool<M, W> {
     pub fn close(&self) {
         self.resize(0);
         self.inner.semaphore.close();
+        // An object returned while `resize(0)` was running can have been
+        // queued before its permit became available, in which case the
+        // shrink could not release it. Nothing can take it out of the queue
+        // anymore, so release whatever is left.
+        let mut slots = self.inner.slots.lock().unwrap();
+        while let Some(mut obj) = slots.vec.pop_front() {
+            slots.size -= 1;
+            self.inner.manager.detach(&mut obj.obj);
+        }
     }
 
     /// Indicates whether this [`Pool`] has been closed.
